@@ -21,6 +21,10 @@ every oracle price, every asset decimal scale, every prior history incl. accrued
 * "a vault's principal is never left below the product's debt floor unless the vault is closed"    → `C03.floor_kept`
 * "the principal outstanding across a product never exceeds its debt ceiling"                      → `C03.ceiling_kept`
 * "when the required oracle price is not active these operations fail"                            → `C03.inactive_price_rejects`
+* floor / ceiling when the configuration CHANGES between messages (ceiling lowered below the outstanding principal, floor
+  raised above a vault's principal — the clauses are then false of the state without any message): no accepted message makes
+  an excess worse      → `C03.ceiling_excess_never_increases`, `C03.floor_deficit_never_increases`; limits that hold again
+  keep holding         → `C03.limits_kept_from`
 -/
 namespace Comdex.C03
 open Comdex Comdex.Vault Comdex.C01
@@ -261,6 +265,60 @@ theorem ceiling_kept (cfg : Nat → Option Product) (hc : CfgOk cfg) (h : Histor
   simp only [Gaps.zero] at h2
   omega
 
+/-! ### The limits when the configuration CHANGES in the middle of a history
+
+`floor_kept` / `ceiling_kept` are invariants of a FIXED configuration. A reconfiguration (`WasmUpdatePairsVault`) can lower
+the ceiling below the outstanding principal or raise the floor above an open vault's principal — the update path checks
+nothing — and then the clauses are false of the state without any message having been accepted. What the code guarantees,
+and what is proved here for every state satisfying the ledger invariant (whatever the limits were before): **no accepted
+message makes an excess worse**. -/
+
+/-- **Ceiling, excess form**: after an accepted message the product's published minted total is at most its debt ceiling, or
+at most what it was before — a total above a lowered ceiling can only come down. -/
+theorem ceiling_excess_never_increases (cfg : Nat → Option Product) (hc : CfgOk cfg) (G : Gaps) (s : State) (e : Env) (m : Msg)
+    (hm : m.userOk) (hne : m.esmRegular) (hinv : InvL cfg G s) (hg : GoodGaps G) (k : Nat) (p : Product) (hp : cfg k = some p) :
+    (apply cfg s e m).minted k ≤ p.debtCeiling ∨ (apply cfg s e m).minted k ≤ s.minted k := by
+  obtain ⟨_, _, h2, _, _⟩ := apply_invL cfg hc (fun _ => 0) (ceilBound cfg s) (fun _ _ _ => Int.le_refl 0)
+    (fun k p hp => (hc k p hp).2.2.2.2.1)
+    (fun k p hp => by unfold ceilBound; simp only [hp]; split <;> omega) G s e m hm hne hinv (limitsBC_any cfg G s hinv) hg
+  have := h2.2 k (by simp [hp])
+  unfold ceilBound at this
+  simp only [hp] at this
+  split at this
+  · exact Or.inl this
+  · exact Or.inr this
+
+/-- **Floor, deficit form**: for every bound `b` up to the product's debt floor, "every open vault of the product owes at
+least `b`" is kept by every accepted message — a principal below a raised floor can only go up (or the vault goes away),
+and no vault newly falls below the floor. -/
+theorem floor_deficit_never_increases (cfg : Nat → Option Product) (hc : CfgOk cfg) (G : Gaps) (s : State) (e : Env) (m : Msg)
+    (hm : m.userOk) (hne : m.esmRegular) (hinv : InvL cfg G s) (hg : GoodGaps G) (k : Nat) (p : Product) (hp : cfg k = some p)
+    (b : Int) (hb0 : 0 ≤ b) (hb : b ≤ p.debtFloor) (hall : ∀ v ∈ s.vaults, v.product = k → b ≤ v.amountOut) :
+    ∀ v ∈ (apply cfg s e m).vaults, v.product = k → b ≤ v.amountOut := by
+  have hl : LimitsBC cfg (fun k' => if k' = k then b else 0) (ceilBound cfg s) s := by
+    refine ⟨fun v hv _ => ?_, (limitsBC_any cfg G s hinv).2⟩
+    by_cases hk : v.product = k
+    · simp only [hk, if_true]; exact hall v hv hk
+    · simp only [hk, if_false]; exact (hinv.1.2.1 v hv).2.2.2.1
+  obtain ⟨_, h1, h2, _, _⟩ := apply_invL cfg hc (fun k' => if k' = k then b else 0) (ceilBound cfg s)
+    (fun k' _ _ => by by_cases hk : k' = k <;> simp [hk, hb0])
+    (fun k' p' hp' => by
+      by_cases hk : k' = k
+      · subst hk; rw [hp] at hp'; cases hp'; simp [hb]
+      · simp only [hk, if_false]; exact (hc k' p' hp').2.2.2.2.1)
+    (fun k p hp => by unfold ceilBound; simp only [hp]; split <;> omega) G s e m hm hne hinv hl hg
+  intro v hv hk
+  have := h2.1 v hv ((h1.1.2.1 v hv).2.1)
+  simpa [hk] using this
+
+/-- **Limits that hold after a reconfiguration keep holding**: if the new configuration's floor and ceiling are satisfied by
+the state at the moment of the change (e.g. the ceiling was raised, the floor lowered, or the excess has been worked off),
+they are satisfied after every later history under that configuration. -/
+theorem limits_kept_from (cfg : Nat → Option Product) (hc : CfgOk cfg) (h : History) (hu : UsersOk h) (hne : EsmRegular h)
+    (G : Gaps) (s : State) (hinv : InvL cfg G s) (hl : Limits cfg s) (hg : GoodGaps G) : Limits cfg (runAll cfg s h) := by
+  obtain ⟨_, h', _, _⟩ := invG_always cfg hc h hu hne G s (hinv.withLimits hl) hg
+  exact h'.2.2.2.2.2
+
 theorem calcCR_none_of_inactive (p : Product) (e : Env) (a b : Int)
     (h : e.priceIn = none ∨ (p.outOracle = true ∧ e.priceOut = none)) : calcCR p e a b = none := by
   unfold calcCR
@@ -313,5 +371,15 @@ theorem ratioOk_exact_tight :
     verifyCR unitProduct unitEnv (3 * 10^18 - 1) (2 * 10^18) = true ∧
     2 * ((3 * 10^18 - 1 : Int) * 1 * 1) < 3 * ((2 * 10^18 : Int) * 1 * 1) ∧
     verifyCR unitProduct unitEnv (3 * 10^18 - 2) (2 * 10^18) = false := by decide
+
+/-! non-vacuity of the deficit / excess theorems: the state of `C01.demoEvents` right after the ceiling was lowered to
+1 500 000 (< 2 000 000 outstanding) and the floor raised to 2 500 000 (> the vault's 2 000 000) -/
+def tightState : State := (runC (demoCfg, State.init) (demoEvents.take 3)).2
+example : tightState.minted 1 = 2000000 ∧ demoTight.debtCeiling = 1500000 ∧ demoTight.debtFloor = 2500000 ∧
+    step demoCfgTight tightState demoEnv (.draw 10 1 1 1 1) = none ∧
+    step demoCfgTight tightState demoEnv (.repay 10 1 1 1 600000) = none ∧
+    (step demoCfgTight tightState demoEnv (.deposit 10 1 1 1 1000)).isSome ∧
+    (step demoCfgTight tightState demoEnv (.close 10 1 1 1)).isNone := by decide
+example : ∀ v ∈ tightState.vaults, v.product = 1 → (2000000 : Int) ≤ v.amountOut := by decide
 
 end Comdex.C03
